@@ -119,10 +119,12 @@ struct Obs {
 
 fn execute(data: &[u8], a: &str, entry: Entry, script: &[Ans]) -> Result<Obs, String> {
     let mut r = Scripted { data, pos: 0, script, calls: vec![], error_delivered: false };
-    let d = algo(a);
-    let res = guard(|| match entry {
-        Entry::File => d.hash_file(&mut r),
-        Entry::Patch => d.hash_patch(&mut r),
+    let res = guard(|| {
+        let d = algo(a);
+        match entry {
+            Entry::File => d.hash_file(&mut r),
+            Entry::Patch => d.hash_patch(&mut r),
+        }
     })?;
     Ok(Obs {
         result: match res {
